@@ -58,17 +58,28 @@ func verifyFunc(eng *Engine, fn *ssa.Function, con *Contract, opts SolveOpts) *F
 			break
 		}
 	}
-	if con != nil && con.Opts["check"] == "asserts" {
-		// partial check of a function whose postconditions are a trusted summary: only the call-site assertions
-		// (and the vacuity probes) are obligations
+	if con != nil && con.Opts["check"] != "" {
+		// partial check: only the named obligation kinds are obligations ("asserts" = call-site assertions; otherwise
+		// kind prefixes such as safety.make). Everything else about the function is outside the claim.
+		want := strings.Split(con.Opts["check"], ",")
 		var keep []*Obl
 		for _, o := range vc.obls {
-			if o.Kind == "assert" || o.Kind == "vacuity" {
+			ok := o.Kind == "vacuity"
+			for _, w := range want {
+				w = strings.TrimSpace(w)
+				if w == "asserts" && o.Kind == "assert" {
+					ok = true
+				}
+				if w != "asserts" && strings.HasPrefix(o.Kind, w) {
+					ok = true
+				}
+			}
+			if ok {
 				keep = append(keep, o)
 			}
 		}
 		vc.obls = keep
-		vc.assumed[shortFuncName(fn)+": only its call-site assertions are checked here (no safety, postcondition or frame obligations); its postconditions remain a trusted summary; preconditions of its callees are assumed, so executions that violate one are outside the assertion's claim"] = true
+		vc.assumed[shortFuncName(fn)+": partial check (opt check="+con.Opts["check"]+"): only these obligation kinds are checked here; no other safety, postcondition or frame obligation of this function is part of the claim, and preconditions of its callees are assumed, so executions that violate one are outside the claim"] = true
 	}
 	res.VC = vc
 	solveVC(vc, vc.obls, opts)
